@@ -96,3 +96,36 @@ func newDefault() *plenc.Plenc {
 	p.RegisterDefaultCodecs()
 	return p
 }
+
+func instCfgs() []model.Cfg            { return inst.Cfgs() }
+func instNew(c model.Cfg) *plenc.Plenc { return inst.New(c) }
+func cfgName(c model.Cfg) string       { return inst.CfgName(c) }
+
+// isRecursive reports whether t reaches a library type without a finite Descriptor (D20)
+func isRecursive(t reflect.Type) bool {
+	return reachesRecursive(t, map[reflect.Type]bool{})
+}
+
+func reachesRecursive(t reflect.Type, seen map[reflect.Type]bool) bool {
+	if seen[t] {
+		return true
+	}
+	switch t.Kind() {
+	case reflect.Ptr, reflect.Slice:
+		return reachesRecursive(t.Elem(), seen)
+	case reflect.Map:
+		return reachesRecursive(t.Key(), seen) || reachesRecursive(t.Elem(), seen)
+	case reflect.Struct:
+		if t == model.TimeT {
+			return false
+		}
+		seen[t] = true
+		defer delete(seen, t)
+		for i := 0; i < t.NumField(); i++ {
+			if t.Field(i).IsExported() && t.Field(i).Tag.Get("plenc") != "-" && reachesRecursive(t.Field(i).Type, seen) {
+				return true
+			}
+		}
+	}
+	return false
+}
